@@ -200,6 +200,64 @@ Theorem C13_refuted_set_decode_pinned :
     /\ option_map (fun b => (fold_log N (N * N) s_apply 0%N (log b), unsubd b, returned b)) (cbs s' 0) = Some (3%N, false, true).
 Proof. exact refuted_set_decode_pinned. Qed.
 
+(* ---------- a Set whose writer is the inheritance machinery: DerivedSet.InheritFrom / SubtractReactive ---------- *)
+(* [scall] contains [KInherit m]: derivedSet.inheritMutations for the net mutation m that the occurrence counts yield
+   (WHICH m is C14's); SubtractReactive issues [KCompute (fun _ => m)] on its result.  So C13_set_api_log_shape / _fold /
+   _true_diff above already quantify over all interleavings of inherited writes with direct writes (Add .. Replace, Decode),
+   subscribers and unsubscribers.  Below: the value step of the inherited write, the same theorems spelled out for the
+   calls issued by a wired script, and the refutation of a write path that reports what was requested. *)
+
+(* For every net mutation m and all contents s: the inherited write applies m and reports what value.Apply changed - a
+   true difference of s that folds to the new contents. *)
+Theorem C13_set_inherited_write_true_diff : forall m s,
+  let r := s_wr (scall_op (KInherit m)) s in
+  w_new r = s_apply s m /\ w_delta r = Some (s_applied s m) /\ w_ret r = s_applied s m
+  /\ s_legal_p s (s_applied s m) /\ s_apply s (s_applied s m) = s_apply s m.
+Proof. exact inherited_write_reports_applied. Qed.
+
+(* Target = NewDerivedSet() or source0.SubtractReactive(source1..n), sources with any contents, any script of source
+   writes, direct calls on the target, InheritFrom and un-inherit ([wired_program] = the calls it issues on the target):
+   for every schedule made of these calls, in any interleaving, repetition or subset. *)
+Theorem C13_wired_set_log_shape : forall k s0s ws (sch : list (nat * option (op scall))) c b,
+  drawn_from (snd (wired_program k s0s ws)) sch ->
+  let s := s_run (sapi_sch sch) (init N (N * N) sop (N * N) 0%N) in
+  cbs s c = Some b ->
+  log b = initpart N (N * N) s_initD b ++ firstn (ndel b) (skipn (regat b) (hist s))
+  /\ regat b + ndel b <= length (hist s)
+  /\ val s = fold_left s_apply (hist s) 0%N.
+Proof. exact wired_set_log_shape. Qed.
+
+Theorem C13_wired_set_fold : forall k s0s ws (sch : list (nat * option (op scall))) c b,
+  drawn_from (snd (wired_program k s0s ws)) sch ->
+  let s := s_run (sapi_sch sch) (init N (N * N) sop (N * N) 0%N) in
+  quiescent _ _ _ _ s -> cbs s c = Some b -> unsubd b = false ->
+  fold_log N (N * N) s_apply 0%N (log b) = val s.
+Proof. exact wired_set_fold. Qed.
+
+Theorem C13_wired_set_true_diff : forall k s0s ws (sch : list (nat * option (op scall))),
+  drawn_from (snd (wired_program k s0s ws)) sch ->
+  chain N (N * N) s_apply s_legal_p 0%N (hist (s_run (sapi_sch sch) (init N (N * N) sop (N * N) 0%N))).
+Proof. exact wired_set_true_diff. Qed.
+
+(* Non-vacuity: derived.InheritFrom(source); a subscriber; Add(0) directly, the source adds 0, Delete(0) directly, the
+   source deletes 0 (three threads): the schedule is drawn from the script and the subscriber is told (1,0) (0,0) (0,1) (0,0). *)
+Example C13_nonvacuous_derived_schedule : drawn_from (snd (wired_program WDerived [0%N] derived_script)) derived_schedule.
+Proof. exact derived_schedule_drawn. Qed.
+Example C13_regression_derived_direct_and_inherited :
+  let s := s_run (sapi_sch derived_schedule) (init N (N * N) sop (N * N) 0%N) in
+  thr s 0 = Idle /\ thr s 1 = Idle /\ thr s 2 = Idle /\ val s = 0%N /\ hist s = [(1, 0); (0, 0); (0, 1); (0, 0)]%N
+  /\ option_map (fun b => (log b, unsubd b)) (cbs s 0) = Some ([(1, 0); (0, 0); (0, 1); (0, 0)]%N, false).
+Proof. exact derived_run. Qed.
+
+(* A write path that reports the REQUESTED mutations ([s_wr_requested]) is refuted on the same schedule: the subscriber
+   is told "0 added" twice and "0 deleted" twice; the reported sequence is not a chain of true differences. *)
+Theorem C13_refuted_inherited_reports_requested :
+  let s := s_run_requested (sapi_sch derived_schedule) (init N (N * N) sop (N * N) 0%N) in
+  (forall t, t < 3 -> thr s t = Idle)
+  /\ option_map (fun b => log b) (cbs s 0) = Some [(1, 0); (1, 0); (0, 1); (0, 1)]%N
+  /\ ~ chain N (N * N) s_apply s_legal_p 0%N (hist s).
+Proof. exact refuted_inherited_reports_requested. Qed.
+
 (* Non-vacuity: an interleaved run (registration racing with a Replace, a later Apply, an unsubscribe) reaches a
    quiescent state with non-trivial logs; the same schedule after the fix folds to the contents. *)
 Example C13_nonvacuous_run :
@@ -244,3 +302,8 @@ Print Assumptions C13_refuted_set_decode_pinned.
 Print Assumptions C13_set_api_log_shape.
 Print Assumptions C13_set_api_fold.
 Print Assumptions C13_set_api_true_diff.
+Print Assumptions C13_set_inherited_write_true_diff.
+Print Assumptions C13_wired_set_log_shape.
+Print Assumptions C13_wired_set_fold.
+Print Assumptions C13_wired_set_true_diff.
+Print Assumptions C13_refuted_inherited_reports_requested.
